@@ -363,7 +363,7 @@ func c07ConsumptionAs(e *Env, rule string) {
 	sl, isSl := arg.(*ssa.Slice)
 	ok := isSl && sl.Low == nil && sl.High != nil && isFieldLoad(core.Resolve(sl.High), "MessageLength")
 	if ok {
-		c, isCall := sl.X.(*ssa.Call)
+		c, isCall := core.ThroughHelpers(sl.X).(*ssa.Call)
 		ok = isCall && core.CalleeName(c) == "bytes.Buffer.Bytes"
 	}
 	e.R.Check(ok, rule, "tcp/client.Session.processBuffer:decoder-gets-frame", e.pos(decodes[0].(ssa.Instruction)), "the decoder is given buffer.Bytes()[:header.MessageLength]", "the decoder is not given exactly the announced frame of the buffer's unread bytes")
